@@ -290,7 +290,10 @@ def declared_counts(rep, prog, wfile, wcell, warr):
         if len(ts) != 2:
             why.append("the record does not start with two integers (length, number of faces)")
         else:
-            a_len = strip(call_args(ts[0])[0])
+            from ..model import expand as _expand_node
+            a_len = strip(_expand_node(wcell, call_args(ts[0])[0]))
+            while a_len.get("k") == "ParenExpr" and a_len.get("c"):
+                a_len = strip(a_len["c"][0])
             nbf = expand_text(wcell, call_args(ts[1])[0])
             if "get_face_lst().size()" not in nbf:
                 why.append("the second integer of the record is not the number of faces (%s)" % nbf[:60])
@@ -302,7 +305,16 @@ def declared_counts(rep, prog, wfile, wcell, warr):
                     if x.get("k") == "CXXMemberCallExpr" and x.get("callee", "").split("::")[-1] in ("push_back", "emplace_back") and render(call_obj(x)) == V:
                         lens.append(expand_text(wcell, call_args(x)[0]))
                     if x.get("k") == "CallExpr" and x.get("callee", "").startswith("std::transform") and V in render(x):
-                        for lam in walk(x):
+                        lams = [lam for lam in walk(x) if lam.get("k") == "LambdaExpr"]
+                        for a_ in call_args(x):           # a named lambda handed to the algorithm
+                            sa = strip(a_)
+                            while sa.get("k") in ("CXXConstructExpr", "MaterializeTemporaryExpr", "ImplicitCastExpr") and sa.get("c"):
+                                sa = strip(sa["c"][0])
+                            if sa.get("k") == "DeclRefExpr" and sa["ref"].get("dk") == "Var":
+                                for v_ in walk(wcell["body"]):
+                                    if v_.get("k") == "Var" and v_.get("did") == sa["ref"]["did"] and isinstance(v_.get("init"), dict) and strip(v_["init"]).get("k") == "LambdaExpr":
+                                        lams.append(strip(v_["init"]))
+                        for lam in lams:
                             if lam.get("k") == "LambdaExpr":
                                 for r in walk(lam["body"]):
                                     if r.get("k") == "ReturnStmt" and isinstance(r.get("value"), dict):
@@ -338,6 +350,8 @@ def declared_counts(rep, prog, wfile, wcell, warr):
                                         idx = cl["init"]["decls"][0]["name"]
                                     except (KeyError, IndexError, TypeError):
                                         idx = None
+                                else:
+                                    idx = _parallel_counter(prog, wcell, cl)
                                 other = [p_ for p_ in parts if p_ != var]
                                 if var in parts and len(other) == 1 and idx and any(other[0] == "%s[%s]" % (o, idx) for o in offs):
                                     good = True
@@ -361,7 +375,7 @@ def declared_counts(rep, prog, wfile, wcell, warr):
             why.append("CELLS does not declare %s.size() records" % lst)
         if len(ts) == 2:
             tot = expand_text(wcell, call_args(ts[1])[0])
-            if not ("std::accumulate(" in tot and "%s.size()" % lst in tot):
+            if not ("std::accumulate(" in tot and "%s.size()" % lst in tot) and not _loop_total(prog, wcell, call_args(ts[1])[0], lst):
                 why.append("the total number of integers is not accumulate(record lengths) + number of cells (%s)" % tot[:80])
         ts2 = _to_strings(wcell, ct[0][1])
         if len(ts2) != 1 or not _is_cell_count(expand_text(wcell, call_args(ts2[0])[0]), lst):
@@ -572,3 +586,44 @@ def _adds_size(e):
     plus = any(x.get("k") == "BinaryOperator" and x.get("op") == "+" for x in walk(e))
     size = any((x.get("k") == "CXXDependentScopeMemberExpr" and x.get("member") == "size") or (x.get("k") == "CXXMemberCallExpr" and x.get("callee", "").endswith("::size")) for x in walk(e))
     return plus and size
+
+
+def _parallel_counter(prog, fn, loop):
+    """name of an integer local that equals the position of the element in a range-for: declared = 0 before the loop, incremented
+    exactly once per pass (a top-level ++ of the loop body), written nowhere else"""
+    fi = prog.index(fn)
+    body = loop["body"].get("c", []) if loop["body"].get("k") == "CompoundStmt" else [loop["body"]]
+    for st_ in body:
+        x = strip(st_)
+        if x.get("k") == "UnaryOperator" and "++" in x.get("op", "") and strip(x["c"][0]).get("k") == "DeclRefExpr":
+            did = strip(x["c"][0])["ref"]["did"]
+            decl = [v for v in walk(fn["body"]) if v.get("k") == "Var" and v.get("did") == did and isinstance(v.get("init"), dict)]
+            if not decl or strip(decl[0]["init"]).get("k") != "IntegerLiteral" or strip(decl[0]["init"]).get("v") != "0":
+                continue
+            writes = [w for w in walk(fn["body"]) if (w.get("k") == "UnaryOperator" and ("++" in w.get("op", "") or "--" in w.get("op", "")) or w.get("k") in ("CompoundAssignOperator",) or (w.get("k") == "BinaryOperator" and w.get("op") == "="))
+                      and strip(w["c"][0]).get("k") == "DeclRefExpr" and strip(w["c"][0])["ref"].get("did") == did]
+            if len(writes) == 1 and fi.order[id(decl[0])] < fi.order[id(loop)] and not any(c_.get("k") in ("ContinueStmt",) for c_ in walk(loop["body"])):
+                return decl[0]["name"]
+    return None
+
+
+def _loop_total(prog, fn, expr, lst):
+    """total = <number of cells>; for(x : V) total += x;   (the explicit-loop form of accumulate(V.begin(), V.end(), n))"""
+    from ..model import expand_text
+    e = strip(expr)
+    if e.get("k") != "DeclRefExpr" or e["ref"].get("dk") != "Var":
+        return False
+    did = e["ref"]["did"]
+    decl = [v for v in walk(fn["body"]) if v.get("k") == "Var" and v.get("did") == did and isinstance(v.get("init"), dict)]
+    if not decl or not _is_cell_count(expand_text(fn, decl[0]["init"]), lst):
+        return False
+    adds = [w for w in walk(fn["body"]) if w.get("k") == "CompoundAssignOperator" and w.get("op") == "+=" and strip(w["c"][0]).get("k") == "DeclRefExpr" and strip(w["c"][0])["ref"].get("did") == did]
+    other = [w for w in walk(fn["body"]) if (w.get("k") == "BinaryOperator" and w.get("op") == "=" or w.get("k") == "UnaryOperator" and ("++" in w.get("op", "") or "--" in w.get("op", ""))) and strip(w["c"][0]).get("k") == "DeclRefExpr" and strip(w["c"][0])["ref"].get("did") == did]
+    if len(adds) != 1 or other:
+        return False
+    fi = prog.index(fn)
+    loop = fi.enclosing(adds[0], ("CXXForRangeStmt",))
+    if loop is None or fi.enclosing(adds[0], ("IfStmt",)) is not None:
+        return False
+    r = strip(adds[0]["c"][1])
+    return r.get("k") == "DeclRefExpr" and r["ref"].get("did") == loop["var"]["did"] and "size" in render(loop["range"])
